@@ -140,6 +140,24 @@ extern "C" struct dirent* readdir(DIR* d)
 }
 extern "C" struct dirent64* readdir64(DIR* d) { return (struct dirent64*)readdir(d); }
 
+// lseek: the k-th call fails (EINVAL); getcwd: ERANGE while the buffer is smaller than g_cwd_need (a longer path than the real one)
+static long g_ls_countdown = -1, g_total_ls = 0;
+extern "C" off_t lseek(int fd, off_t off, int wh)
+{
+  if(g_ls_countdown == 0) { g_ls_countdown = -1; ++g_total_ls; errno = EINVAL; return -1; }
+  if(g_ls_countdown > 0) --g_ls_countdown;
+  return (off_t)syscall(SYS_lseek, fd, off, wh);
+}
+extern "C" off64_t lseek64(int fd, off64_t off, int wh) { return lseek(fd, (off_t)off, wh); }
+static size_t g_cwd_need = 0;
+static long g_total_cwd = 0;
+extern "C" char* getcwd(char* buf, size_t size)
+{
+  if(g_cwd_need && size < g_cwd_need) { ++g_total_cwd; errno = ERANGE; return 0; }
+  long r = syscall(SYS_getcwd, buf, size);
+  return r < 0 ? 0 : buf;
+}
+
 static void die(const char* what) { fprintf(stderr, "harness: %s: %s\n", what, strerror(errno)); exit(3); }
 
 static void rawRemoveTree(const char* path, bool self)
@@ -377,6 +395,22 @@ static void runScript(File& f, char* script)
     { // File::write(const void*, usize) answers the byte count
       printf(" v=%lld", (long long)f.write("VW", 2));
     }
+    else if(it[0] == 'Z' && it[1] >= '0' && it[1] <= '3' && !it[2])
+    { g_ls_countdown = it[1] - '0'; printf(" z=%lld", (long long)f.size()); g_ls_countdown = -1; }
+    else if(it[0] == 'R' && it[1] >= '0' && it[1] <= '3' && !it[2])
+    {
+      String d;
+      g_ls_countdown = it[1] - '0';
+      bool r = f.readAll(d);
+      g_ls_countdown = -1;
+      if(r) { printf(" r="); hxPutHex((const char*)d, d.length()); } else printf(" r=fail");
+    }
+    else if(it[0] == 'S' && it[1] >= '0' && it[1] <= '2' && it[2] == ':')
+    {
+      g_ls_countdown = 0;
+      printf(" s=%lld", (long long)f.seek((int64)strtoll(it + 3, 0, 10), (File::Position)(it[1] - '0')));
+      g_ls_countdown = -1;
+    }
     else if(it[0] == 'i' && !it[1]) printf(" i=%d", f.isOpen() ? 1 : 0);
     else if(it[0] == 'o' && !it[1]) printf(" o=%d", f.open(String("nstd-verif-never-opened"), File::writeFlag) ? 1 : 0);
     else if(it[0] == 'f' && !it[1]) printf(" f=%d", f.flush() ? 1 : 0);
@@ -487,7 +521,7 @@ static bool fsOp(HxLine& l)
     bool t = File::time(p, tm);
     // the time stamps themselves are not compared (wall clock); a successful call must have filled them in
     bool filled = tm.writeTime > 0 && tm.accessTime > 0 && tm.creationTime > 0;
-    printf("%d %d %d", File::exists(p) ? 1 : 0, Directory::exists(p) ? 1 : 0, t ? (filled ? 1 : 2) : 0);
+    printf("%d %d %d %d", File::exists(p) ? 1 : 0, Directory::exists(p) ? 1 : 0, t ? (filled ? 1 : 2) : 0, File::isExecutable(p) ? 1 : 0);
   }
   else if(hxIs(l, "fsreadall", 1))
   {
@@ -579,6 +613,33 @@ static bool fsOp(HxLine& l)
     char back[1024]; snprintf(back, sizeof(back), "%s/s", BASE);
     if(chdir(back) != 0) die("chdir back");
   }
+  else if(hxIs(l, "fsopenf", 2))
+  {
+    unsigned long flags = hxNum(l, 2);
+    if(flags >= 16) return false;
+    File f;
+    long before = g_total_ls;
+    g_ls_countdown = 0;
+    bool r = f.open(p, (uint)flags);
+    g_ls_countdown = -1;
+    printf("open=%d fired=%d", r ? 1 : 0, g_total_ls != before ? 1 : 0);
+    f.close();
+  }
+  else if(hxIs(l, "fscdl", 2))
+  {
+    unsigned long need = hxNum(l, 2);
+    if(need > 100000) return false;
+    bool r = Directory::change(p);
+    (void)r;
+    g_cwd_need = need;
+    String cw = Directory::getCurrentDirectory();
+    g_cwd_need = 0;
+    const char* t = cw; size_t tl = cw.length();
+    if(tl >= BASELEN && !strncmp(t, BASE, BASELEN) && (t[BASELEN] == '/' || !t[BASELEN])) { t += BASELEN; tl -= BASELEN; }
+    if(cw.isEmpty()) printf("cwd=fail"); else { printf("cwd="); hxPutHex(t, tl); }
+    char back[1024]; snprintf(back, sizeof(back), "%s/s", BASE);
+    if(chdir(back) != 0) die("chdir back");
+  }
   else if(hxIs(l, "fsfile", 3))
   {
     unsigned long flags = hxNum(l, 2);
@@ -602,6 +663,7 @@ int main()
 {
   HxLine l;
   atexit(fsCleanup);
+  umask(022);
   while(hxRead(l))
   {
     if(hxIs(l, "reset", 0)) { g_needReset = true; printf("ok"); hxEndLine(); continue; }
@@ -610,6 +672,6 @@ int main()
     if(fsOp(l)) continue;
     printf("bad-op"); hxEndLine();
   }
-  fprintf(stderr, "faults-fired sendfile=%ld mkdir=%ld dtype-unknown=%ld\n", g_total_sf, g_total_mk, g_total_dt);
+  fprintf(stderr, "faults-fired sendfile=%ld mkdir=%ld dtype-unknown=%ld lseek=%ld getcwd-erange=%ld\n", g_total_sf, g_total_mk, g_total_dt, g_total_ls, g_total_cwd);
   return 0;
 }
